@@ -268,6 +268,14 @@ fn canonical_of(class: &str, name: &str) -> Option<String> {
     }
 }
 
+fn is_migrating(class: &str, name: &str) -> bool {
+    let db = rbx_reflection_database::get();
+    rbx_binary::verif::find_property_descriptors(db, class.into(), name.into())
+        .and_then(|d| d.serialized)
+        .map(|ser| matches!(&ser.kind, PropertyKind::Canonical { serialization: PropertySerialization::Migrate(_) }))
+        .unwrap_or(false)
+}
+
 pub fn hint_lines(f: &Forest, dom: &WeakDom, ctx: &mut RefCtx, facts: &DbFacts) -> Vec<String> {
     let mut out = Vec::new();
     // iteration order of every instance's property map
@@ -283,6 +291,7 @@ pub fn hint_lines(f: &Forest, dom: &WeakDom, ctx: &mut RefCtx, facts: &DbFacts) 
     // alias sets: insertion sequences as collect_type_info builds them (post-order, property iteration order)
     let mut visited: HashSet<(String, String)> = HashSet::new();
     let mut seqs: BTreeMap<(String, String), Vec<String>> = BTreeMap::new();
+    let mut migrating: HashSet<String> = HashSet::new();
     for l in f.postorder(&f.roots) {
         let n = f.node(l).unwrap();
         for p in orders.get(&l).cloned().unwrap_or_default() {
@@ -291,6 +300,9 @@ pub fn hint_lines(f: &Forest, dom: &WeakDom, ctx: &mut RefCtx, facts: &DbFacts) 
             }
             if let Some(c) = canonical_of(&n.class, &p) {
                 if c != p {
+                    if is_migrating(&n.class, &p) {
+                        migrating.insert(p.clone());
+                    }
                     let e = seqs.entry((n.class.clone(), c)).or_default();
                     if !e.contains(&p) {
                         e.push(p);
@@ -304,11 +316,17 @@ pub fn hint_lines(f: &Forest, dom: &WeakDom, ctx: &mut RefCtx, facts: &DbFacts) 
         if seq.len() < 2 || !done.insert(seq.clone()) {
             continue;
         }
+        // the writer keeps two sets per column and consults the plain aliases before the legacy (migrating) names
         let mut set = UstrSet::default();
+        let mut legacy = UstrSet::default();
         for a in &seq {
-            set.insert(a.as_str().into());
+            if migrating.contains(a) {
+                legacy.insert(a.as_str().into());
+            } else {
+                set.insert(a.as_str().into());
+            }
         }
-        let it: Vec<String> = set.iter().map(|u| u.to_string()).collect();
+        let it: Vec<String> = set.iter().chain(legacy.iter()).map(|u| u.to_string()).collect();
         out.push(format!(
             "aset {:x} {} {}",
             seq.len(),
